@@ -7,17 +7,17 @@ FieldAlpha ==
   {It("rename", "str"), It("rename", "word"), It("default", "word"), It("default", "path"), It("default", "words"),
    It("with", "path"), It("with", "closure"), It("with", "str"), It("skip", "word"), It("skip", "false"), It("skip", "str"),
    It("map", "str"), It("and_then", "path"), It("map", "closure"), It("multiple", "word"), It("multiple", "false"),
-   It("flatten", "word"), It("flatten", "true"), It("bogus", "word")}
-FieldAlphaSmall == {It("flatten", "word"), It("rename", "str"), It("skip", "word"), It("flatten", "true"), It("rename", "word"), It("with", "str"), It("multiple", "str")}
+   It("flatten", "word"), It("flatten", "true"), It("flatten", "empty"), It("skip", "empty"), It("bogus", "word")}
+FieldAlphaSmall == {It("flatten", "empty"), It("flatten", "word"), It("rename", "str"), It("skip", "word"), It("flatten", "true"), It("rename", "word"), It("with", "str"), It("multiple", "str")}
 
-VariantAlpha == {It("rename", "str"), It("rename", "true"), It("skip", "word"), It("skip", "false"), It("word", "word"), It("word", "false"), It("word", "str"), It("bogus", "str")}
+VariantAlpha == {It("skip", "empty"), It("rename", "str"), It("rename", "true"), It("skip", "word"), It("skip", "false"), It("word", "word"), It("word", "false"), It("word", "str"), It("bogus", "str")}
 
 ContainerAlpha ==
   {It("default", "word"), It("default", "words"), It("rename_all", "rule"), It("rename_all", "str"), It("map", "str"), It("and_then", "str"),
    It("allow_unknown_fields", "word"), It("allow_unknown_fields", "str"), It("attributes", "words"), It("attributes", "str"),
    It("forward_attrs", "word"), It("forward_attrs", "words"), It("from_ident", "word"), It("from_word", "path"), It("from_word", "str"),
    It("from_none", "closure"), It("supports", "shapes"), It("supports", "badshape"), It("supports", "dblprefix"), It("supports", "anybad"), It("bogus", "words"),
-   It("::map", "str"), It("::default", "word")}      \* a leading `::` makes it another name
+   It("::map", "str"), It("::default", "word"), It("bound", "preds"), It("bound", "str"), It("bound", "word")}      \* a leading `::` makes it another name
 ContainerSmall == {It("from_word", "path"), It("attributes", "words"), It("forward_attrs", "word")}
 AttrForms == {It("@bare", ""), It("@nv", ""), It("@lit", ""), It("@junk", "")}
 AttrContainer == AttrForms \cup {It("default", "word"), It("bogus", "word")}
@@ -30,4 +30,5 @@ ContShapes == {"named", "named_attrs", "named_attrs_with", "named0", "unit", "ne
 EnumDerives == {"FromMeta"}
 EnumShapes == {"enum"}
 AttrShapes == {"named", "enum", "unit"}
+VFieldVariant == {It("skip", "word"), It("skip", "false"), It("rename", "str"), It("bogus", "str")}
 =============================================================================
